@@ -49,7 +49,8 @@ type c19Op struct {
 }
 
 type c19Layer struct {
-	Kind  string            `json:"kind"` // inmem | os | http | embed
+	Root  int               `json:"root,omitempty"` // how the loader's root directory is spelt (os, embed)
+	Kind  string            `json:"kind"`           // inmem | os | http | embed
 	Files map[string]string `json:"files,omitempty"`
 	Dirs  []string          `json:"dirs,omitempty"` // extra (possibly empty) directories
 }
@@ -144,7 +145,7 @@ func genTree(t *rapid.T, label string) (files map[string]string, dirs []string) 
 
 func genLayer(t *rapid.T, label string, kinds []string) c19Layer {
 	k := rapid.SampledFrom(kinds).Draw(t, label+"Kind")
-	l := c19Layer{Kind: k}
+	l := c19Layer{Kind: k, Root: rapid.IntRange(0, 4).Draw(t, label+"Root")}
 	if k != "embed" {
 		l.Files, l.Dirs = genTree(t, label)
 	}
@@ -232,7 +233,8 @@ func buildLayer(l c19Layer, tmpRoot string, idx int) (jet.Loader, map[string]str
 		}
 		return m, l.Files, nil
 	case "embed":
-		return embedfs.NewLoader("testdata/embedtree", c19Embedded), c19EmbedModel, nil
+		root := []string{"testdata/embedtree", "testdata/embedtree/", "./testdata/embedtree", "testdata/./embedtree", "testdata/x/../embedtree"}[l.Root%5]
+		return embedfs.NewLoader(root, c19Embedded), c19EmbedModel, nil
 	}
 	root := filepath.Join(tmpRoot, fmt.Sprintf("layer%d", idx))
 	if err := os.MkdirAll(root, 0o755); err != nil {
@@ -253,7 +255,8 @@ func buildLayer(l c19Layer, tmpRoot string, idx int) (jet.Loader, map[string]str
 		}
 	}
 	if l.Kind == "os" {
-		return jet.NewOSFileSystemLoader(root), l.Files, nil
+		spelt := []string{root, root + "/", filepath.Dir(root) + "/./" + filepath.Base(root), root + "/sub/..", root + "//"}[l.Root%5]
+		return jet.NewOSFileSystemLoader(spelt), l.Files, nil
 	}
 	hl, err := httpfs.NewLoader(http.Dir(root))
 	return hl, l.Files, err
